@@ -1842,6 +1842,7 @@ def main():
     ap.add_argument('--roots', default='')
     ap.add_argument('--stub', default='', help='regex of function names (C ids) whose bodies are dropped (left external)')
     ap.add_argument('--rename', default='', help='a=b,c=d  rename C symbols')
+    ap.add_argument('--cut', default='', help='regex of function names (C ids) whose bodies are replaced by assume(false): paths through them are outside the claim')
     a = ap.parse_args()
     text = open(a.inp).read()
     m = parse_module(text)
@@ -1851,6 +1852,8 @@ def main():
     em = Emitter(m)
     em.used_globals = set(); em.used_funcs = set()
     stub_re = re.compile(a.stub) if a.stub else None
+    cut_re = re.compile(a.cut) if a.cut else None
+    cut_names = []
     roots = ['@' + r for r in a.roots.split(',') if r]
     if not roots:
         roots = [n for n, f in m.funcs.items() if f.lines is not None]
@@ -1889,6 +1892,11 @@ def main():
             errors.append('missing function ' + fn); done_f[fn] = None; continue
         if f.lines is None or (stub_re and stub_re.search(cid(fn))):
             done_f[fn] = None
+            continue
+        if cut_re and cut_re.search(cid(fn)):
+            ps = ', '.join('%s a%d' % (em.ctype(p[0]), k) for k, p in enumerate(f.params)) or 'void'
+            done_f[fn] = '%s %s(%s) { __ll2c_cut_realloc(); %s }\n' % (em.ctype(f.ret), em.fname(fn), ps, zero_ret(em, f))
+            cut_names.append(cid(fn))
             continue
         try:
             done_f[fn] = translate_function(em, f)
@@ -1940,6 +1948,7 @@ def main():
     sys.stderr.write('translated %d functions, %d globals; %d external/stubbed functions\n' % (
         sum(1 for c in done_f.values() if c), len(done_g), len(undefined)))
     for u in undefined: sys.stderr.write('  EXTERN %s\n' % cid(u))
+    for c in cut_names: sys.stderr.write('  CUT %s\n' % c)
     for e in errors: sys.stderr.write('  ERROR %s\n' % e)
     return 1 if errors else 0
 
